@@ -285,6 +285,8 @@ struct GenCfg {
     long_strings: bool,
     /// 2.0 files cannot store null structs (docs/src/format/file/versioning.md: 2.1 "adds support for nulls in struct fields")
     struct_nulls: bool,
+    /// when > 0 every list has exactly this many items
+    fixlen: u64,
 }
 
 fn gen_nulls(rng: &mut Rng, n: usize, cfg: &GenCfg) -> Option<NullBuffer> {
@@ -402,7 +404,9 @@ fn gen_array(n: &Node, len: usize, rng: &mut Rng, cfg: &GenCfg) -> ArrayRef {
             for i in 0..len {
                 let valid = nulls.as_ref().map(|nb| nb.is_valid(i)).unwrap_or(true);
                 // a null list sometimes keeps garbage items behind it
-                let l = if !valid && !rng.chance(1, 4) {
+                let l = if cfg.fixlen > 0 {
+                    cfg.fixlen
+                } else if !valid && !rng.chance(1, 4) {
                     0
                 } else {
                     match rng.below(8) {
@@ -482,11 +486,32 @@ fn render_value(a: &dyn Array, i: usize) -> String {
         DataType::LargeUtf8 => format!("s{}", hex(a.as_string::<i64>().value(i).as_bytes())),
         DataType::Binary => format!("b{}", hex(a.as_binary::<i32>().value(i))),
         DataType::LargeBinary => format!("b{}", hex(a.as_binary::<i64>().value(i))),
-        DataType::FixedSizeBinary(_) => format!("x{}", hex(a.as_fixed_size_binary().value(i))),
+        DataType::FixedSizeBinary(_) => {
+            let v = a.as_fixed_size_binary().value(i);
+            if v.len() > 32 {
+                // wide values: length + FNV-1a digest keeps the op lines short
+                let mut h: u64 = 0xcbf29ce484222325;
+                for b in v {
+                    h = (h ^ *b as u64).wrapping_mul(0x100000001b3);
+                }
+                format!("X{}h{h:016x}", v.len())
+            } else {
+                format!("x{}", hex(v))
+            }
+        }
         DataType::FixedSizeList(_, _) => {
             let f = a.as_fixed_size_list();
             let v = f.value(i);
-            format!("<{}>", (0..v.len()).map(|j| render_value(v.as_ref(), j)).collect::<Vec<_>>().join(","))
+            let items: Vec<String> = (0..v.len()).map(|j| render_value(v.as_ref(), j)).collect();
+            if items.len() > 16 {
+                let mut h: u64 = 0xcbf29ce484222325;
+                for b in items.join(",").bytes() {
+                    h = (h ^ b as u64).wrapping_mul(0x100000001b3);
+                }
+                format!("<{}h{h:016x}>", items.len())
+            } else {
+                format!("<{}>", items.join(","))
+            }
         }
         DataType::Dictionary(_, _) => {
             let d = a.as_any_dictionary();
@@ -583,12 +608,14 @@ struct FileSpec {
     slice: usize,
     /// `DecoderConfig::cache_repetition_index` of the reader (off by default in lance)
     crep: bool,
+    /// every list has exactly this many items (0 = random lengths)
+    fixlen: u64,
 }
 
 impl FileSpec {
     fn line(&self, ncols: usize) -> String {
         format!(
-            "file v={} rows={} ncols={} spec={} seed={} nullp={} maxlen={} long={} batches={} cache={} maxpage={} slice={} crep={}",
+            "file v={} rows={} ncols={} spec={} seed={} nullp={} maxlen={} long={} batches={} cache={} maxpage={} slice={} crep={} fixlen={}",
             self.vtxt,
             self.rows,
             ncols,
@@ -601,7 +628,8 @@ impl FileSpec {
             self.cache.map(|c| c.to_string()).unwrap_or("none".into()),
             self.maxpage.map(|c| c.to_string()).unwrap_or("none".into()),
             self.slice,
-            self.crep as u8
+            self.crep as u8,
+            self.fixlen
         )
     }
 
@@ -642,6 +670,7 @@ impl FileSpec {
             maxpage: opt(kv("maxpage")?)?,
             slice: kv("slice")?.parse().ok()?,
             crep: kv("crep").map(|v| v == "1").unwrap_or(false),
+            fixlen: kv("fixlen").and_then(|v| v.parse().ok()).unwrap_or(0),
         };
         if fs.batches.iter().sum::<usize>() != fs.rows || fs.rows > 200_000 || fs.nullp > 16 {
             return None;
@@ -656,7 +685,7 @@ impl FileSpec {
     /// the whole columns (`rows` rows each), generated from the seed; sliced out of a longer array when `slice > 0`
     fn columns(&self) -> Vec<ArrayRef> {
         let mut rng = Rng::new(self.seed);
-        let cfg = GenCfg { nullp: self.nullp, maxlen: self.maxlen, long_strings: self.long_strings, struct_nulls: self.version != LanceFileVersion::V2_0 };
+        let cfg = GenCfg { nullp: self.nullp, maxlen: self.maxlen, long_strings: self.long_strings, struct_nulls: self.version != LanceFileVersion::V2_0, fixlen: self.fixlen };
         self.top
             .iter()
             .map(|n| {
@@ -1700,7 +1729,7 @@ impl Prop for C25 {
         }
     }
     fn gen_case(&mut self, rng: &mut Rng, _tier: Tier, idx: usize) -> Vec<String> {
-        if idx % 7 == 6 {
+        if idx % 7 == 6 && idx % 30 != 13 {
             return hook_case(rng);
         }
         for _attempt in 0..20 {
@@ -1758,7 +1787,43 @@ impl Prop for C25 {
                 maxpage: if zrisk || long_strings { None } else { *rng.pick(&[None, None, Some(64), Some(1024), Some(16384)]) },
                 slice: *rng.pick(&[0, 0, 1, 7]),
                 crep: if zrisk || long_strings { !rng.chance(1, 4) } else { rng.chance(1, 3) },
+                fixlen: 0,
             };
+            let mut fs = fs;
+            let boundary = idx % 30 == 13;
+            if boundary {
+                // "offset-width boundary" family: a fixed-width full-zip list page whose value bytes stay just below 2^8 /
+                // 2^16 while values + one control word per item land just above (and the two controls around it)
+                let k = idx / 30;
+                // (item width in bytes, items per row, rows): value bytes / zipped bytes with 1-byte control words
+                let cfgs: [(u64, u64, usize); 6] = [
+                    (1008, 5, 13), // 65520 / 65585
+                    (1008, 5, 12), // 60480 / 60540  both below 2^16
+                    (1008, 5, 14), // 70560 / 70630  both above
+                    (63, 1, 4),    // 252 / 256
+                    (63, 1, 3),    // 189 / 192      both below 2^8
+                    (63, 1, 5),    // 315 / 320      both above
+                ];
+                let (wd, per, rows) = cfgs[k % 6];
+                let spec = if (k / 6) % 2 == 0 { format!("S(L(fsb{wd}@z))") } else { format!("S(L(fsl{}i@z))", wd / 4) };
+                let spec = if wd == 63 && (k / 6) % 2 == 1 { "S(LL(fsb63@z))".to_string() } else { spec };
+                fs.top = parse_spec(&spec).unwrap();
+                fs.spec = spec;
+                fs.rows = rows;
+                fs.batches = vec![rows];
+                fs.nullp = 0;
+                fs.fixlen = per;
+                fs.cache = None;
+                fs.maxpage = None;
+                fs.slice = 0;
+                fs.long_strings = false;
+                fs.crep = k % 2 == 0;
+                if fs.version == LanceFileVersion::V2_0 {
+                    fs.version = LanceFileVersion::V2_1;
+                    fs.vtxt = "2.1".into();
+                }
+            }
+            let rows = fs.rows;
             let w = match write_file(&self.rt, &fs) {
                 Ok(w) => w,
                 Err(_) => continue, // the writer rejected the data (not this property's concern): draw again
@@ -1777,6 +1842,11 @@ impl Prop for C25 {
                 ));
             }
             lines.push("meta".into());
+            if boundary {
+                lines.push("read full bs=1024 proj=0".into());
+                lines.push(format!("read range {} {} bs=2 proj=0", fs.rows.saturating_sub(2), fs.rows));
+                lines.push(format!("read indices {} bs=1 proj=0", fs.rows - 1));
+            }
             let n = rows as u64;
             let nreads = if big { 4 } else { rng.range(3, 8) };
             for _ in 0..nreads {
